@@ -1,9 +1,168 @@
 import AioModel.Wire
-/-! Driver commands of property C20 (stub until the model exists). -/
+import AioModel.C20
+import AioModel.C20Drain
+/-!
+Driver commands of property C20.
+
+`life <entry> A <ctxs> <su> <sd> <cl> A …` — application table (row order = application id)
+  entry  `r:<S|C>*` runner script (S = setup, C = cleanup) | `a:0` `_run_app` cancelled while
+         serving | `a:1` `_run_app` whose site fails to start
+  ctxs   `-` | comma list of two digits `<enter><exit>` (0 ok, 1 Exception, 2 CancelledError)
+  slots  `-` | comma list of `h<id>.<f>` (user handler) / `s<j>` (sub-application j)
+reply  `log=<events> res=<outcome;…> wf=<0|1>`
+-/
 namespace Aio.Driver.C20
-open Aio Aio.Wire
+open Aio Aio.Wire Aio.C20
+
+def parseFail : Char → Option Fail
+  | '0' => some .ok
+  | '1' => some .exc
+  | '2' => some .cancel
+  | _ => none
+
+def parseCtx (s : String) : Option Ctx :=
+  match s.toList with
+  | [e, x] => do pure ⟨← parseFail e, ← parseFail x⟩
+  | _ => none
+
+def parseList (f : String → Option α) (s : String) : Option (List α) :=
+  if s == "-" then some [] else (s.splitOn ",").mapM f
+
+def parseSlot (s : String) : Option Slot :=
+  match s.toList with
+  | 'h' :: rest =>
+    match (String.ofList rest).splitOn "." with
+    | [id, f] =>
+      match f.toList with
+      | [c] => do pure (.h (← id.toNat?) (← parseFail c))
+      | _ => none
+    | _ => none
+  | 's' :: rest => do pure (.sub (← (String.ofList rest).toNat?))
+  | _ => none
+
+def parseApps : List String → Option (List AppDef)
+  | [] => some []
+  | "A" :: c :: su :: sd :: cl :: rest => do
+    let d : AppDef := ⟨← parseList parseCtx c, ← parseList parseSlot su, ← parseList parseSlot sd,
+      ← parseList parseSlot cl⟩
+    let r ← parseApps rest
+    pure (d :: r)
+  | _ => none
+
+def showSig : Sig → String
+  | .startup => "u"
+  | .shutdown => "d"
+  | .cleanup => "c"
+
+def showEv : Ev → String
+  | .enter a i => s!"n{a}.{i}"
+  | .entered a i => s!"N{a}.{i}"
+  | .exit a i => s!"x{a}.{i}"
+  | .sig s id => s!"{showSig s}{id}"
+
+def showOrigin : Origin → String
+  | .enter a i => s!"n{a}.{i}"
+  | .exit a i => s!"x{a}.{i}"
+  | .sig s id => s!"{showSig s}{id}"
+
+def showErr : Err → String
+  | .user o => "E:" ++ showOrigin o
+  | .multi os => "M:" ++ "+".intercalate (os.map showOrigin)
+  | .cancelled => "cancelled"
+  | .site => "site"
+
+def showRes : Option Err → String
+  | none => "ok"
+  | some e => showErr e
+
+def showLog (l : List Ev) : String := if l.isEmpty then "-" else ",".intercalate (l.map showEv)
+
+def parseScript (s : String) : Option (List ROp) :=
+  s.toList.mapM (fun c => match c with
+    | 'S' => some ROp.setup
+    | 'C' => some ROp.cleanup
+    | _ => none)
+
+def life (entry : String) (apps : List String) : String :=
+  match parseApps apps with
+  | none => "bad-op"
+  | some tbl =>
+    let wf := showBool (wellFormed tbl)
+    match entry.splitOn ":" with
+    | ["r", sc] =>
+      match parseScript sc with
+      | none => "bad-op"
+      | some ops =>
+        let (log, res) := runRunner tbl {} ops
+        s!"log={showLog log} res={";".intercalate (res.map showRes)} wf={wf}"
+    | ["a", "0"] =>
+      let (log, e) := runApp tbl false
+      s!"log={showLog log} res={showErr e} wf={wf}"
+    | ["a", "1"] =>
+      let (log, e) := runApp tbl true
+      s!"log={showLog log} res={showErr e} wf={wf}"
+    | _ => "bad-op"
+
+/-! `drain <T> <t0> <ds> C <script> C <script> …`; script `-` | comma list of `<t>:<label>`,
+label `g<d>` | `f<d>` | `p<d>` | `a+b` (pipelined) | `P` | `B`.
+reply `c0=<obs> c1=… ret=<t|never> open=<n|->`, obs `-` | comma list of `<kind>@<t>` -/
+open Aio.C20.Drain in
+def parseReq (s : String) : Option Req :=
+  match s.toList with
+  | 'g' :: d => do pure ⟨.get, ← (String.ofList d).toNat?⟩
+  | 'f' :: d => do pure ⟨.postFull, ← (String.ofList d).toNat?⟩
+  | 'p' :: d => do pure ⟨.postPart, ← (String.ofList d).toNat?⟩
+  | _ => none
+
+open Aio.C20.Drain in
+def parseLabel (s : String) : Option Label :=
+  if s == "P" then some .recvPartial
+  else if s == "B" then some .recvBody
+  else do pure (.recv (← (s.splitOn "+").mapM parseReq))
+
+open Aio.C20.Drain in
+def parseTimed (s : String) : Option (Nat × Label) :=
+  match s.splitOn ":" with
+  | [t, l] => do pure (← t.toNat?, ← parseLabel l)
+  | _ => none
+
+open Aio.C20.Drain in
+def parseConns : List String → Option (List (List (Nat × Label)))
+  | [] => some []
+  | "C" :: sc :: rest => do
+    let s ← parseList parseTimed sc
+    let r ← parseConns rest
+    pure (s :: r)
+  | _ => none
+
+open Aio.C20.Drain in
+def showObs : Obs → Option String
+  | .hs t => some s!"hs@{t}"
+  | .hr t => some s!"hr@{t}"
+  | .resp t => some s!"resp@{t}"
+  | .hx t => some s!"hx@{t}"
+  | .close t => some s!"close@{t}"
+  | .done _ => none
+
+open Aio.C20.Drain in
+def drain (T t0 ds : String) (rest : List String) : String :=
+  match T.toNat?, t0.toNat?, ds.toNat?, parseConns rest with
+  | some T, some t0, some ds, some scripts =>
+    let cs := scripts.map (runConn T t0 ds)
+    let ret := returnTime (t0 + ds) cs
+    let shown := (List.range cs.length).zip cs |>.map (fun (i, c) =>
+      let o := c.obs.filterMap showObs
+      s!"c{i}=" ++ (if o.isEmpty then "-" else ",".intercalate o))
+    let openN := (cs.filter (·.transportOpen)).length
+    " ".intercalate shown ++ (if shown.isEmpty then "" else " ") ++
+      match ret with
+      | some r => s!"ret={r} open={openN}"
+      | none => "ret=never open=-"
+  | _, _, _, _ => "bad-op"
 
 def handle : List String → String
+  | "life" :: entry :: apps => life entry apps
+  | "drain" :: T :: t0 :: ds :: rest => drain T t0 ds rest
   | _ => "bad-op"
 
 end Aio.Driver.C20
